@@ -168,6 +168,12 @@ func genLifecycle(g *genCtx) {
 					}
 				}
 			}
+			if strings.Contains(ls, ",") && (strings.Contains(ls, "http")) {
+				// a context that is ample for the request as a whole (3 s for a request that needs 1.8 s more) — but not if
+				// every provider only got a share of it
+				g.newCase("kind=lifecycle")
+				g.op("scenario listeners=%s inflight=1 ctx=tight timing=ready", ls)
+			}
 		}
 	}
 }
@@ -268,6 +274,9 @@ func (h *gateHello) SayHello(ctx context.Context, req *proto.HelloRequest) (*pro
 	return &proto.HelloReply{Message: "Hello, " + req.GetName()}, nil
 }
 
+// tightCtx: the Stop context is 3 s and the in-flight request is released 1.8 s after Stop was called.
+var tightCtx bool
+
 // slowStartLog: the caller-supplied logger takes its time over the "Starting …" lines (a logger that writes to a slow
 // sink).  A Stop that follows Start immediately then arrives before the providers have begun to listen.
 var slowStartLog bool
@@ -293,7 +302,8 @@ func (ls *liveServer) handler(id int) http.HandlerFunc {
 		body, _ := io.ReadAll(r.Body)
 		rid := r.Header.Get("X-Rid")
 		ls.log.mu.Lock()
-		ls.log.saw[rid] = fmt.Sprintf("%d:%s:%s:%s:%d:%s", id, r.Method, r.URL.Path, r.Header.Get("X-Test"), len(body), sum(body))
+		cred := strings.Join([]string{r.Header.Get("Authorization"), r.Header.Get("Cookie"), r.Header.Get("X-Api-Key"), strings.Join(r.Header.Values("X-Multi"), ",")}, "|")
+		ls.log.saw[rid] = fmt.Sprintf("%d:%s:%s:%s:%d:%s:%s", id, r.Method, r.URL.Path, r.Header.Get("X-Test"), len(body), sum(body), sum([]byte(cred)))
 		ls.log.lines[rid] = append(ls.log.lines[rid], fmt.Sprintf("h%d", id))
 		ls.log.mu.Unlock()
 		if r.URL.Path == "/block" {
@@ -466,6 +476,14 @@ func (ls *liveServer) request(l, method, path string, bodyLen int) string {
 	req, _ := http.NewRequest(method, fmt.Sprintf("%s://127.0.0.1:%d%s", scheme, ls.ports[l], path), bytes.NewReader(body))
 	req.Header.Set("X-Rid", rid)
 	req.Header.Set("X-Test", "t"+rid)
+	if bodyLen%2 == 1 {
+		// credential-style headers (and a multi-valued one): the handler must see them unchanged
+		req.Header.Set("Authorization", "Bearer s3cr3t-token")
+		req.Header.Set("Cookie", "session=abc123")
+		req.Header.Set("X-Api-Key", "k-123")
+		req.Header.Add("X-Multi", "one")
+		req.Header.Add("X-Multi", "two")
+	}
 	resp, err := ls.client.Do(req)
 	if err != nil {
 		return "error=" + strings.ReplaceAll(fmt.Sprintf("%T", err), " ", "_")
@@ -522,7 +540,9 @@ func (ls *liveServer) grpcCall(name string) string {
 func (ls *liveServer) stop(ample bool) (stopRet int, stopErr int) {
 	ctx := context.Background()
 	var cancel context.CancelFunc
-	if ample {
+	if ample && tightCtx {
+		ctx, cancel = context.WithTimeout(ctx, 3*time.Second)
+	} else if ample {
 		ctx, cancel = context.WithTimeout(ctx, 20*time.Second)
 	} else {
 		ctx, cancel = context.WithCancel(ctx)
@@ -632,7 +652,8 @@ func execServer(x *execCtx) {
 				}
 				return fmt.Sprintf("stopret=%d stoperr=%d wgreleased=%d portsfree=%s", ret, serr, released, ls.portsFree())
 			case "scenario":
-				return runScenario(f["listeners"], atoi(f["inflight"]), f["ctx"] == "ample", f["timing"] == "ready")
+				tightCtx = f["ctx"] == "tight"
+				return runScenario(f["listeners"], atoi(f["inflight"]), f["ctx"] == "ample" || tightCtx, f["timing"] == "ready")
 			}
 			return "bad-op"
 		})
@@ -713,6 +734,9 @@ func runScenario(listeners string, inflight int, ample, ready bool) string {
 	stopDone := make(chan [2]int, 1)
 	go func() { r, e := ls.stop(ample); stopDone <- [2]int{r, e} }()
 	time.Sleep(30 * time.Millisecond) // Stop is under way (blocked on the in-flight requests with an ample context)
+	if tightCtx {
+		time.Sleep(1770 * time.Millisecond)
+	}
 	early := 0
 	select {
 	case v := <-stopDone:
